@@ -59,8 +59,10 @@ def history_step(rng, h, lang, names, ops, kind):
                     tree = ("app", tree, a)
                 lang.parse(c04.render(tree, names)).fix()
         elif kind == "use_op":
-            # use one operator once, with arguments made for its parameters
-            f = rng.choice([o for o in ops if o[2]])
+            # use one operator once, with arguments made for its parameters (constrained ones first:
+            # their constraints are instantiated, filtered and resolved by the use)
+            fs = [o for o in ops if o[2]]
+            f = rng.choices(fs, [4 if o[1][2] else 1 for o in fs])[0]
             tree, inner = ("op", f[0]), {}
             for p_ in f[2]:
                 tree = ("app", tree, c04.gen_expr(rng, h, ops, p_, 1, 0, inner))
@@ -243,7 +245,7 @@ def main(tier: str, seed: int, replay: str | None = None) -> int:
     import os
     rep.proof_stage("C16" if (C.COQ / "props" / "C16.v").exists() else "C17_engine")
     rng = random.Random(seed)
-    nlang, nprobe = (25, 12) if tier == "quick" else (150, 25)
+    nlang, nprobe = (32, 12) if tier == "quick" else (150, 25)
     items = []
     metas = []
     n = 0
@@ -267,7 +269,8 @@ def main(tier: str, seed: int, replay: str | None = None) -> int:
             tree = c04.gen_expr(rng, h, ops, None, 3, ninputs)
             if rng.random() < 0.35:
                 # a shallow probe of one operator with arguments made for its parameters
-                f = rng.choice([o for o in ops if o[2]])
+                fs = [o for o in ops if o[2]]
+                f = rng.choices(fs, [4 if o[1][2] else 1 for o in fs])[0]
                 tree, inner = ("op", f[0]), {}
                 for p_ in f[2]:
                     tree = ("app", tree, c04.gen_expr(rng, h, ops, p_, 1, ninputs, inner))
